@@ -16,7 +16,7 @@ WHAT = {"P09-new-connection-before-failed-one-closed": "a new connection was ope
 
 def multi_fault(seed, count):
     rnd = random.Random(seed)
-    kinds = ["close", "garbage", "malformed", "partial", "partial_close", "nack", "silence"]
+    kinds = ["close", "garbage", "malformed", "partial", "partial_close", "nack", "silence", "dup_field"]
     out = []
     for _ in range(count):
         calls = [{"op": rnd.choice(["read_card", "begin", "configure"]), "token": [97], "amount": [1]} for _ in range(rnd.randrange(1, 4))]
@@ -95,12 +95,32 @@ def slow_and_declined(ppt):
             out.append({"config": {"max": 2}, "calls": calls, "plan": {"exchanges": [slow], "default": ok}})
             out.append({"config": {"max": 2}, "calls": calls, "plan": {"exchanges": [ok, slow], "default": ok}})
             out.append({"config": {"max": 2}, "calls": calls, "plan": {"exchanges": [ok, ok, slow], "default": ok}})
+    # a caller that comes back after a quarter of an hour, an hour, a day: a connection that saw no failure is still the connection
+    for idle in (16 * 60000, 3600000, 86400000):
+        for calls in ([{"op": "read_card"}, {"op": "read_card", "idle_ms": idle}],
+                      [{"op": "begin", "token": [97], "amount": []}, {"op": "commit", "token": [97], "amount": [1], "idle_ms": idle}, {"op": "read_card", "idle_ms": idle}]):
+            out.append({"config": {"max": 2}, "calls": calls, "plan": {"exchanges": [], "default": ok}})
     for code in (5, 0x6c, 0xff):
         for res in (5, 0x6c, 1, 255):
             declined = {"o": "abort", "code": code, "status_first": True, "status_result": res}
             for nxt in ({"op": "begin", "token": [98], "amount": []}, {"op": "read_card"}, {"op": "begin", "token": [97], "amount": []}):
                 out.append({"config": {"max": 2}, "calls": [{"op": "begin", "token": [97], "amount": []}, nxt, {"op": "read_card"}],
                             "plan": {"exchanges": [declined], "default": ok}})
+    return out
+
+
+def content_errors():
+    """A reply that is framed correctly, carries an expected control field and cannot be decoded because of what is in it (a field
+    twice) is an undecodable reply like any other: the connection that delivered it is not used again."""
+    ok = {"o": "ok", "status": {"amount": [1]}, "uid": [1, 2, 3, 4]}
+    out = []
+    for calls in ([{"op": "read_card"}, {"op": "read_card"}], [{"op": "begin", "token": [97], "amount": []}, {"op": "read_card"}],
+                  [{"op": "begin", "token": [97], "amount": []}, {"op": "commit", "token": [97], "amount": [1]}, {"op": "read_card"}],
+                  [{"op": "configure"}, {"op": "read_card"}]):
+        for k in range(0, 4):
+            for pos in (1, 2):
+                out.append({"config": {"max": 2}, "calls": calls,
+                            "plan": {"exchanges": [ok] * k + [dict(ok, inter=1, fault={"pos": pos, "kind": "dup_field"})], "default": ok}})
     return out
 
 
@@ -114,7 +134,7 @@ def run(chk):
     ppt, rcm = cl.calibrate(chk, binary)
     sc = cl.gen_scenarios(chk, "C09", thorough, ppt, rcm)
     walks = multi_fault(chk.seed, 5000 if thorough else 200)
-    out = cl.run_scenarios(binary, sc + serial_variants() + slow_construction() + slow_and_declined(ppt) + walks, wd, "c09")
+    out = cl.run_scenarios(binary, sc + serial_variants() + slow_construction() + slow_and_declined(ppt) + content_errors() + walks, wd, "c09")
     outs, pfl = cl.validate_conn(chk, out, wd, "c09", shard=200, ppt=ppt, rcm=rcm)
     cl.report_conn(chk, outs, pfl, {"P09"}, WHAT)
     cl.validate_stream(chk, out, wd, "c09", ppt=ppt, rcm=rcm)
